@@ -315,7 +315,7 @@ class C19(Check):
         cssutils.util._defaultFetcher = dfetch
         return log, fetch, old
 
-    def flatten_case(self, ctx, cssutils, case, rng, stream, spell=True):
+    def flatten_case(self, ctx, cssutils, case, rng, stream, spell=True, combine=False):
         import cssutils.util
         import xml.dom
         main_text, texts = V.render_case(case, rng if spell else None)
@@ -397,7 +397,7 @@ class C19(Check):
                                     'cascade order under the same media, every URL resolving to the same absolute URL '
                                     '(difference: %s)' % kind, w, detail, known=expl)
             # the script wrapper: parse (default fetcher), flatten, serialise with its own serializer
-            if not cyc and main_text and rng.random() < 0.6:     # csscombine(cssText='') calls sys.exit
+            if not cyc and main_text and (combine or rng.random() < 0.6):     # csscombine(cssText='') calls sys.exit
                 self.combine_case(ctx, cssutils, case, main_text, texts, rng, w, exc, stream)
         finally:
             cssutils.util._defaultFetcher = old
@@ -469,7 +469,10 @@ class C19(Check):
             return S.shallow(S.p_rules(sh.cssRules, deep=False))
         case = {'href': w['href'], 'main': absr(w['css'], w['href']),
                 'vfs': {u: absr(t, u) for u, t in w['vfs'].items()}}
-        res = self.flatten_case(ctx, cssutils, case, ctx.sub_rng('replay'), 'replay', spell=False)
+        res = self.flatten_case(ctx, cssutils, case, ctx.sub_rng('replay'), 'replay', spell=False, combine=True)
+        if w.get('call') == 'csscombine':
+            # both modes of the script wrapper
+            self.flatten_case(ctx, cssutils, case, ctx.sub_rng('replay2'), 'replay', spell=False, combine=True)
         self.check_lines(ctx, res, {'case': 'flatten', 'href': w['href']})
 
     def check_lines(self, ctx, res, data):
